@@ -81,7 +81,7 @@ def task(R, item):
                 key = (sp_.get("file"), sp_.get("line"), what, o.info.get("op"))
                 # stated precondition: fewer than 2^32 points
                 ops_s = str(o.info.get("a")) + str(o.info.get("b"))
-                if what == "overflow" and o.info.get("op") in ("Mul", "Add") and nm == "fill_contiguous" and o.info.get("fn") == rec["id"] \
+                if what == "overflow" and o.info.get("op") in ("Mul", "Add") and nm == "fill_contiguous" and str(o.info.get("fn") or "").startswith(rec["id"]) \
                         and ("area." in ops_s or "isect" in ops_s) and "self." not in ops_s and "next#" not in ops_s:
                     R.notes.append("%s: stream-index arithmetic over the rectangle discharged by the stated precondition '< 2^32 points' - its formula is decided by C04 (%s:%s)" % (tag, sp_.get("file"), sp_.get("line")))
                     continue
